@@ -27,6 +27,7 @@ type Engine struct {
 	ufDecls   map[string]string
 	repoDir   string
 	srcLines  map[string][]string
+	kvstrPkgs map[string]bool // ext_kvstr.go
 }
 
 type writeSet struct {
